@@ -339,6 +339,8 @@ func checkConn(sc connScenario, r *connResult) []connVerdict {
 				want = classifyText(errText(k, atoi(strings.TrimPrefix(respKind[k], "err:"))))
 			case respKind[k] == "shutdownmsg":
 				want = "shutdown"
+			case respKind[k] == "badbody":
+				want = "bodyerr"
 			default:
 				want = "nil"
 			}
@@ -411,6 +413,11 @@ func checkConn(sc connScenario, r *connResult) []connVerdict {
 			}
 			for i := used; i < c.ctxCap; i++ {
 				if c.ctxBuf[i] != 0xC5 {
+					if errClass == "bodyerr" {
+						// the reply bytes were put into the supplied buffer and then refused by the body
+						// codec: the buffer holds them, which is what it was supplied for
+						break
+					}
 					if errClass == "canceled" {
 						// observation, not a violation: the late response of an abandoned call is still
 						// decoded into that call's own buffer/reply (the property only protects other calls)
@@ -555,6 +562,8 @@ func connCorpus() []connScenario {
 		mk("late-calls-after-eof", "go 1 32 8 0 0", "eof", "go 2 32 8 0 0", "call 3 32 8 0 0", "ping 4 0 0 0 0", "rt 5 32 8 0 0", "ctx 6 32 8 0 0 0", "probe")
 		// headers larger than the pooled write buffer (64 KiB by default)
 		mk("header-larger-than-the-write-buffer", "go 1 65480 8 0 0", "call 2 70000 8 0 0", "go 3 32 70000 0 0", "rt 4 131072 8 0 0", "resp 1 ok", "resp 2 ok", "resp 3 ok", "resp 4 ok", "go 5 32 8 0 0", "resp 5 ok", "probe", "eof")
+		// a reply body the body codec cannot decode into the caller's Reply: an error for that call, once
+		mk("undecodable-reply", "go 1 32 8 0 0", "rt 2 32 8 0 0", "call 3 32 8 0 0", "ctx 4 32 8 0 0 64", "resp 2 badbody", "resp 1 badbody", "resp 4 badbody", "resp 3 badbody", "go 5 32 8 0 0", "resp 5 ok", "go 6 32 8 0 1", "resp 6 badbody", "brel 6", "probe", "eof")
 		// encode failure
 		mk("encode-failure", "go 1 32 8 0 0", "encfail go 2", "encfail call 3", "resp 1 ok", "probe", "eof")
 		// context
@@ -642,6 +651,8 @@ func genConnScenario(r *prng.R, tier string) connScenario {
 				kind = fmt.Sprintf("err:%d", []int{8, 20, 127, 128, 300, 4000}[r.Intn(6)])
 			} else if y == 3 {
 				kind = "empty"
+			} else if y == 4 && r.Chance(1, 2) {
+				kind = "badbody"
 			}
 			if calls[k].form == "ping" {
 				kind = "empty"
